@@ -58,10 +58,11 @@ const (
 	injInitialPing
 	injInitialClose
 	injInitialCloseGenuineSCID
+	injRetryGoodCur
 	injNumKinds
 )
 
-var injNames = []string{"vn-other", "vn-ours", "retry-badtag", "retry-goodtag", "initial-ping", "initial-close", "initial-close-genuine-scid"}
+var injNames = []string{"vn-other", "vn-ours", "retry-badtag", "retry-goodtag", "initial-ping", "initial-close", "initial-close-genuine-scid", "retry-goodtag-curdcid"}
 
 type hsInj struct {
 	Dir, Idx, Kind int
@@ -144,6 +145,8 @@ type hsAttacker struct {
 	genuineDelivered bool // a genuine non-Retry server datagram was released towards the client
 	armed            bool
 	vnCorrupted      bool
+	genuineRetryDelivered bool
+	injectedAfterRetry    bool
 	injected         bool
 	injectedInert    bool // ... at a point where the client had already been sent a genuine packet
 	injSkipped       bool
@@ -205,6 +208,9 @@ func (a *hsAttacker) noteGenuine(dir, idx int, data []byte, act string) {
 	if !(act == "deliver" || strings.Contains(act, "dup")) {
 		return
 	}
+	if ok && h.typ == 3 {
+		a.genuineRetryDelivered = true // an intact genuine Retry is under way: the client accepts it, later ones are void
+	}
 	if ok && h.typ == 0 {
 		// an intact datagram that starts with a server Initial: the client will have authenticated a packet
 		// (Handshake packets alone do not count: without the ServerHello the client cannot open them)
@@ -226,14 +232,17 @@ func (a *hsAttacker) build(kind int) [][]byte {
 		return [][]byte{quic.VerifVNPacket(0x4a, a.cliSCID, a.curDCID, []uint32{other, 0x1a2a3a4a})}
 	case injVNOurs:
 		return [][]byte{quic.VerifVNPacket(0x4a, a.cliSCID, a.curDCID, []uint32{0x1a2a3a4a, a.cliVer, other})}
-	case injRetryBad, injRetryGood:
+	case injRetryBad, injRetryGood, injRetryGoodCur:
 		body, err := quic.VerifRetryBody(ver, a.cliSCID, a.attSCID, []byte("attacker-token"))
 		if err != nil {
 			return nil
 		}
 		tag := quic.VerifRetryTag(body, a.firstDCID, ver)
 		if kind == injRetryBad {
-			tag[5] ^= 0x10
+			tag[[]int{0, 5, 15}[int(a.c.Seed%3)]] ^= 1 << uint(a.c.Seed%8)
+		}
+		if kind == injRetryGoodCur {
+			tag = quic.VerifRetryTag(body, a.curDCID, ver) // valid for the DCID in use (differs from the original after a Retry)
 		}
 		return [][]byte{append(body, tag...)}
 	case injInitialPing, injInitialClose, injInitialCloseGenuineSCID:
@@ -271,6 +280,7 @@ func (a *hsAttacker) inject(dir, idx int, p simnet.Packet) []simnet.Packet {
 			out = append(out, simnet.Packet{To: a.cliAddr, From: a.srvAddr, Data: d})
 		}
 		a.injectedInert = a.genuineDelivered
+		a.injectedAfterRetry = a.genuineRetryDelivered
 	}
 	return out
 }
@@ -426,6 +436,7 @@ func runOneHS(c hsCase) (fails []monFail, info string) {
 			att.dcidsPerAttempt, att.seenAttempt, att.srvSCIDs = map[string]map[string]bool{}, map[string]bool{}, map[string]bool{}
 			att.cliSCID, att.curDCID, att.firstDCID, att.srvSCID = nil, nil, nil, nil
 			att.armed = true
+			att.genuineRetryDelivered, att.vnCorrupted = false, false
 			att.mu.Unlock()
 		}
 		defer closeLn()
@@ -499,6 +510,18 @@ func runOneHS(c hsCase) (fails []monFail, info string) {
 			earlyWriteErr = serr
 			select {
 			case <-cc.HandshakeComplete():
+				// an early connection reports failure through its context; a connection that was destroyed
+				// (e.g. by a forged Version Negotiation) while the handshake completed in the same batch of
+				// packets has both channels closed: the context decides
+				time.Sleep(time.Nanosecond)
+				select {
+				case <-cc.Context().Done():
+					res.dialErr = context.Cause(cc.Context())
+					if res.dialErr == nil {
+						res.dialErr = errors.New("connection closed")
+					}
+				default:
+				}
 			case <-cc.Context().Done():
 				res.dialErr = context.Cause(cc.Context())
 				if errors.Is(res.dialErr, quic.Err0RTTRejected) {
@@ -651,7 +674,8 @@ func runOneHS(c hsCase) (fails []monFail, info string) {
 		injKind = c.Inj.Kind
 	}
 	alwaysInert := injKind == -1 || injKind == injRetryBad || injKind == injVNOurs
-	inertNow := alwaysInert || (att.injectedInert && injKind != injInitialCloseGenuineSCID)
+	inertNow := alwaysInert || (att.injectedInert && injKind != injInitialCloseGenuineSCID) ||
+		(att.injectedAfterRetry && (injKind == injRetryGood || injKind == injRetryGoodCur))
 	if c.VN {
 		expectVer = quic.Version1
 	}
@@ -786,6 +810,11 @@ func runSimHandshake(w *bufio.Writer, seed uint64, n int, args []string) {
 	for _, s := range scen {
 		cases = append(cases, s)
 	}
+	// witnesses of the known finding dial-ok-closed/version-negotiation (a forged VN without a common
+	// version racing the server's first flight); the outcome depends on a select between two ready channels
+	for i := 0; i < 6; i++ {
+		cases = append(cases, hsCase{Client: []string{"plain", "Chrome_115_IPv4", "unil"}[i%3], Inj: &hsInj{1, 0, injVNOther}})
+	}
 	thorough := os.Getenv("VERIF_TIER") == "thorough"
 	if thorough {
 		for _, s := range scen {
@@ -860,7 +889,9 @@ func runSimHandshake(w *bufio.Writer, seed uint64, n int, args []string) {
 			dist["completed"]++
 		} else if j := strings.Index(info, "dial="); j >= 0 {
 			cls := info[j+5:]
-			if k := strings.IndexAny(cls, ":("); k > 0 {
+			if strings.HasPrefix(cls, "<nil>") {
+				cls = "dial ok, server never completed"
+			} else if k := strings.IndexAny(cls, ":("); k > 0 {
 				cls = cls[:k]
 			}
 			dist["failed: "+strings.TrimSpace(cls)]++
